@@ -376,12 +376,6 @@ def deep_lift_shap(model, X, args=None, target=0,  batch_size=32,
 		n_shuffles = references.shape[1]
 	n, z = X.shape[0] * n_shuffles, 0
 
-	try:
-		model.apply(_register_hooks)
-	except Exception as e:
-		model.apply(_clear_hooks)
-		raise(e)
-
 	for i in trange(n, disable=not verbose):
 		Xi.append(i // n_shuffles)
 		rj.append(i % n_shuffles)
@@ -413,6 +407,7 @@ def deep_lift_shap(model, X, args=None, target=0,  batch_size=32,
 			# hooks. In a try-except block to make sure we remove hooks if an
 			# error is raised. 
 			try:
+				model.apply(_register_hooks)
 				X_ = torch.cat([_X, _references])
 
 				# Calculate the gradients using the rescale rule
@@ -442,6 +437,8 @@ def deep_lift_shap(model, X, args=None, target=0,  batch_size=32,
 			except Exception as e:
 				model.apply(_clear_hooks)
 				raise(e)
+
+			model.apply(_clear_hooks)
 
 			# If not returning the raw multipliers then apply the correction for
 			# character encodings
